@@ -61,7 +61,7 @@ func (Prop) Assumptions() []string {
 }
 
 var opKinds = []string{"create", "create", "create_full", "create_batches", "update_birthday", "first", "find", "preload", "preload_all", "joins", "update", "updates", "delete", "delete_pet", "tx", "tx_fail", "assoc_append", "assoc_find", "assoc_count", "note", "note_find", "count", "save", "gadget", "gadget", "dry_gadget", "dry_gadget", "dry_create", "dry_update", "dry_find", "dry_delete",
-	"assoc_replace", "assoc_clear", "assoc_delete", "assoc_replace_account", "assoc_delete_company", "assoc_replace_langs"}
+	"assoc_replace", "assoc_clear", "assoc_delete", "assoc_replace_account", "assoc_delete_company", "assoc_replace_langs", "cond_dry", "preload_nested", "club_first"}
 
 func (Prop) Gen(r *core.Rand, tier string) interface{} {
 	g := 2 + r.Intn(3)
@@ -126,6 +126,23 @@ func (Prop) Gen(r *core.Rand, tier string) interface{} {
 		// field type is its own serializer (scan values come from a per-field pool)
 		for t := range c.Tasks {
 			c.Tasks[t] = append([]Op{{Kind: "note", X: t}, {Kind: "note_find"}}, c.Tasks[t]...)
+		}
+	}
+	if r.Chance(12) {
+		// club scenario: some tasks run nested preloads over User while others make first
+		// use of a model that has many Users
+		for t := range c.Tasks {
+			if t%2 == 0 {
+				c.Tasks[t] = append([]Op{{Kind: "create_full", J: 0}, {Kind: "preload_nested"}}, c.Tasks[t]...)
+			} else {
+				c.Tasks[t] = append([]Op{{Kind: "club_first", X: t}}, c.Tasks[t]...)
+			}
+		}
+	}
+	if r.Chance(12) {
+		// conditioned-handle scenario: every task builds statements from one shared handle that carries conditions
+		for t := range c.Tasks {
+			c.Tasks[t] = append([]Op{{Kind: "cond_dry", X: t}, {Kind: "cond_dry", X: t + 1}}, c.Tasks[t]...)
 		}
 	}
 	if r.Chance(12) {
@@ -288,6 +305,15 @@ func drySQL(tx *gorm.DB) string {
 	return tx.Statement.SQL.String() + " | " + fmt.Sprint(tx.Statement.Vars...)
 }
 
+// condHandle is a reusable handle that carries conditions (the first a lone Or), shared
+// by every task of the current run: chains that add no condition of their own build their
+// SQL over the handle's own clause values.
+var condHandle *gorm.DB
+
+func mkCond(db *gorm.DB) *gorm.DB {
+	return db.Or("rank = ?", -7).Where("body <> ?", "nobody").Where("rank >= ?", 0).Session(&gorm.Session{})
+}
+
 // runOp executes one operation of task t and renders what the caller observes.
 func runOp(db *gorm.DB, t int, op Op) string {
 	lo, hi := uid(t, 0), uid(t, 3)+99
@@ -330,6 +356,14 @@ func runOp(db *gorm.DB, t int, op Op) string {
 	case "preload":
 		var us []fam.User
 		return out(db.Preload("Pets.Toy").Preload("Company").Where("id BETWEEN ? AND ?", lo, hi).Find(&us), renderUsers(us))
+	case "preload_nested":
+		// paths that visit the User model twice
+		var us []fam.User
+		return out(db.Preload("Manager.Manager").Preload("Friends.Manager").Where("id BETWEEN ? AND ?", lo, hi).Find(&us), renderUsers(us))
+	case "club_first":
+		var cs []fam.Club
+		tx := db.Session(&gorm.Session{DryRun: true, SkipDefaultTransaction: true}).Where("id = ?", op.X).Find(&cs)
+		return out(tx, drySQL(tx))
 	case "preload_all":
 		var us []fam.User
 		return out(db.Preload("Pets").Preload("Toys").Preload("Account").Preload("Languages").Preload("Friends").Preload("Manager").Preload("Team").Where("id BETWEEN ? AND ?", lo, hi).Find(&us), renderUsers(us))
@@ -455,6 +489,22 @@ func runOp(db *gorm.DB, t int, op Op) string {
 		return out(tx, drySQL(tx))
 	case "dry_delete":
 		tx := db.Session(&gorm.Session{DryRun: true, SkipDefaultTransaction: true}).Where("age > ?", op.X).Delete(&fam.User{ID: id})
+		return out(tx, drySQL(tx))
+	case "cond_dry":
+		// nothing but a finisher (or condition-free chain methods) on the shared conditioned handle
+		h := condHandle.Session(&gorm.Session{DryRun: true})
+		var tx *gorm.DB
+		switch op.X % 3 {
+		case 0:
+			var ns []fam.Note
+			tx = h.Find(&ns)
+		case 1:
+			var ids []uint
+			tx = h.Table("notes").Order("id").Limit(1+op.X%4).Pluck("id", &ids)
+		default:
+			var n int64
+			tx = h.Model(&fam.Note{}).Count(&n)
+		}
 		return out(tx, drySQL(tx))
 	case "note":
 		n := &fam.Note{ID: id + 80 + uint(op.X%10), Body: "note", Rank: op.X, Tag: fam.Sealed(fmt.Sprintf("tag-%d-%d", t, op.X))}
@@ -656,6 +706,7 @@ func (p Prop) serial(c *Case) (*runResult, error) {
 	}
 	defer e.Close()
 	rr := &runResult{results: make([][]string, len(c.Tasks))}
+	condHandle = mkCond(e.DB)
 	for t, prog := range c.Tasks {
 		for _, op := range prog {
 			rr.results[t] = append(rr.results[t], runOp(e.DB, t, op))
@@ -701,6 +752,7 @@ func (p Prop) concurrent(c *Case) (*runResult, error) {
 	fam.Sink = func(hc fam.HookCall) error { s.Yield("hook:" + hc.Hook); return nil }
 	defer func() { removeHooks(); fam.Sink = nil }()
 	rr := &runResult{results: make([][]string, len(c.Tasks))}
+	condHandle = mkCond(e.DB)
 	panics := make([]string, len(c.Tasks))
 	var names []string
 	var bodies []func()
